@@ -41,12 +41,15 @@ def alphabet():
     ops += [("build-legacy",)]
     # an in-place rewrite (same size, same inode) whose mtime lies before the epoch: -1 s, then -2 s, ...
     ops += [("wneg", "f1")]
+    # a 12-byte write stamped X.5 s, and a 2-byte in-place rewrite stamped X.51 s: the decimal digits of
+    # (mtime, size) read the same when written one after the other ("X.5"+"12" == "X.51"+"2")
+    ops += [("w12", "f1"), ("wcat", "f1")]
     # a user write that lands *during* a library call, between hashing and recording
     ops += [("build-midwrite", "f1"), ("hash-midwrite", "f1"), ("imd5-midwrite", "f1")]
     return ops
 
 
-MUT = {"w1", "w2", "w3", "repl", "replm", "touch", "rm", "wneg"}
+MUT = {"w1", "w2", "w3", "repl", "replm", "touch", "rm", "wneg", "w12", "wcat"}
 
 
 def cur(path):
@@ -90,8 +93,19 @@ def run_history(hist, init):
                 # two files above the large-file threshold: staging hashes them in the pool
                 write(paths["f1"], C["big1"])
                 write(paths["f2"], C["big2"])
-            if init in ("warm", "warm+link"):
+            if init == "warm12":
+                # a 12-byte file stamped X.5 s is on record (see the w12 / wcat operations)
+                from ..world import EPOCH_NS
+
+                with open(paths["f1"], "wb") as fh:
+                    fh.write(b"twelve bytes")
+                os.utime(paths["f1"], ns=(EPOCH_NS + 500_000_000, EPOCH_NS + 500_000_000))
+                hash_file(paths["f1"], LFS, "md5", state=state)
+                prev_idx = imd5(ibuild(ws, LFS), state=state)
+            if init in ("warm", "warm+link", "warm-neg"):
                 write(paths["f1"], C["c1"])
+                if init == "warm-neg":
+                    os.utime(paths["f1"], ns=(-1_000_000_000, -1_000_000_000))   # a pre-epoch timestamp is on record
                 hash_file(paths["f1"], LFS, "md5", state=state)
                 idx0 = ibuild(ws, LFS)
                 prev_idx = imd5(idx0, state=state)
@@ -131,11 +145,22 @@ def run_history(hist, init):
                                 fh.write(new)
                             os.utime(tmp, ns=(st0.st_mtime_ns, st0.st_mtime_ns))
                             os.rename(tmp, p)
+                    elif k in ("w12", "wcat"):
+                        from ..world import EPOCH_NS
+
+                        if k == "w12" or os.path.exists(p):
+                            mode_ = "r+b" if os.path.exists(p) else "wb"
+                            with open(p, mode_) as fh:
+                                fh.write(b"twelve bytes" if k == "w12" else b"2b")
+                                fh.truncate()
+                            ns_ = EPOCH_NS + (500_000_000 if k == "w12" else 510_000_000)
+                            os.utime(p, ns=(ns_, ns_))
                     elif k == "wneg":
                         if os.path.exists(p):
                             old = open(p, "rb").read()
                             cur_m = os.stat(p).st_mtime_ns
-                            new_m = -2_000_000_000 if cur_m == -1_000_000_000 else -1_000_000_000
+                            # strictly decreasing: -1 s, -2 s, -3 s ... (an old timestamp is never restored)
+                            new_m = -1_000_000_000 if cur_m >= 0 else cur_m - 1_000_000_000
                             with open(p, "r+b") as fh:
                                 fh.write(bytes((b + 5) % 256 for b in old))
                             os.utime(p, ns=(new_m, new_m))
@@ -496,6 +521,11 @@ def run(ctx):
             for b in (ops if d_i >= 4 else [None]):
                 pre = [list(a)] + ([list(b)] if b else [])
                 cs.append({"part": "hist", "init": init, "prefix": pre, "depth": d_i})
+    for b in ops:
+        cs.append({"part": "hist", "init": "warm12", "prefix": [["wcat", "f1"], list(b)], "depth": max(depth, 3)})
+    # a pre-epoch mtime on record: histories that start with another pre-epoch in-place rewrite
+    for b in ops:
+        cs.append({"part": "hist", "init": "warm-neg", "prefix": [["wneg", "f1"], list(b)], "depth": max(depth, 3)})
     # two large files (the hashing pool): histories that start with a staging / hashing call
     for a in (("build-midwrite", "f1"), ("build",), ("imd5-midwrite", "f1")):
         for b in ops:
